@@ -50,7 +50,9 @@ NAMES = {"t": "time", "r": "region", "g": "good", "q": "quality", "h": "height"}
 def mk_dims(grid, extra, tl="t"):
     """tl: the letter of the time dimension ('t' with the name "time", or e.g. 'y' with the name "year")"""
     import flodym as fd
-    dl = [fd.Dimension(name="time" if tl == "t" else "year", letter=tl, items=list(grid), dtype=int)]
+    whole = all(float(g) == int(g) for g in grid)
+    dl = [fd.Dimension(name="time" if tl == "t" else "year", letter=tl, items=[int(g) for g in grid] if whole else [float(g) for g in grid],
+                       dtype=int if whole else float)]
     for l in extra:
         dl.append(fd.Dimension(name=NAMES[l], letter=l, items=list(EXTRA[l])))
     return fd.DimensionSet(dim_list=dl)
@@ -87,7 +89,28 @@ def param_full(case):
     return out
 
 
+def _scaled(pdesc, f):
+    if isinstance(pdesc, dict):
+        return dict(pdesc, values=[float(v) * f for v in pdesc["values"]])
+    return float(pdesc) * f
+
+
 def mk_lifetime(case, dims):
+    """the lifetime model of the case; with case["preset"] = f it is first built with all parameters times f, its tables are
+    computed, and the case's own parameters are then handed over through set_prms (however close to the first ones they are)"""
+    lt = case["lifetime"]
+    f = case.get("preset")
+    if f and lt["kind"] in ("fixed", "normal", "foldnorm", "lognormal", "weibull"):
+        keys = [k for k in ("mean", "std", "shape", "scale") if k in lt]
+        lm = _mk_lifetime(dict(case, lifetime=dict(lt, **{k: _scaled(lt[k], f) for k in keys})), dims)
+        _ = lm.sf, lm.pdf
+        names = dict(mean="mean", std="std", shape="weibull_shape", scale="weibull_scale")
+        lm.set_prms(**{names[k]: mk_param(dims, lt[k]) for k in keys})
+        return lm
+    return _mk_lifetime(case, dims)
+
+
+def _mk_lifetime(case, dims):
     import flodym as fd
     lt = case["lifetime"]
     kw = dict(dims=dims, time_letter=case.get("time_letter", "t"), inflow_at=lt.get("inflow_at", "middle"), n_pts_per_interval=lt.get("n_pts", 1))
@@ -109,6 +132,8 @@ def mk_stock(case, lifetime_model=None):
     drv = np.array([float(Fraction(v)) for v in case["driver"]]).reshape(shp)
     if case.get("int_dtype") and np.all(drv == np.round(drv)):
         drv = drv.astype(np.int64)        # whole-number counts handed over as an integer array
+    if case.get("layout") == "F" and drv.ndim >= 2:
+        drv = np.ascontiguousarray(drv.T).T      # the same numbers stored the other way round (a transposed view, Fortran order)
     k = case["cls"]
     if k == "simple":
         out = np.array([float(v) for v in case["outflow"]]).reshape(shp)
